@@ -10,7 +10,7 @@ use tree_sitter::{InputEdit, Parser, Point, Range, Tree};
 
 pub fn params(tier: &str) -> Vec<(usize, usize)> {
     // passes of (lexeme-string length k for documents, edit-sequence depth)
-    if tier == "quick" { vec![(3, 1), (1, 2)] } else { vec![(4, 1), (2, 2), (1, 3)] }
+    if tier == "mini" { vec![(1, 1)] } else if tier == "quick" { vec![(3, 1), (1, 2)] } else { vec![(4, 1), (2, 2), (1, 3)] }
 }
 
 pub fn meta(tier: &str) -> CheckMeta {
@@ -234,7 +234,7 @@ pub fn worker(ctx: &Ctx, res: &mut ShardResult) {
             for (di, d) in docs.iter().enumerate() {
                 idx += 1;
                 if !ctx.mine(idx) { continue; }
-                let extra = if depth == 1 && (ctx.seed as usize) % nlang == li && di < z.seeds.len() && d.len() <= 10 { 1 } else { 0 };
+                let extra = if !ctx.mini() && depth == 1 && (ctx.seed as usize) % nlang == li && di < z.seeds.len() && d.len() <= 10 { 1 } else { 0 };
                 explore(ctx, &info, d, depth + extra, res);
                 if ctx.out_of_time() || res.too_many() { return; }
             }
